@@ -20,5 +20,5 @@ Separate Extraction
   Parse.parse_model Parse.read_opts
   Cli.cli_kwargs Cli.validate_scope Cli.target_file_name
   Paths.relative_path Paths.norm_join Paths.common_prefix_all Paths.include_directive_text Paths.directive_name Paths.sd_include
-  Xml.xml_parse Xml.populate.
+  Xml.xml_parse Xml.populate Xml.parse_doc Xml.format_doc.
 Cd "../../coq".
